@@ -47,6 +47,9 @@ pub enum Step {
     Login { user: u8, database: u8, resp: Resp },
     /// the backend's password for carol changes (auth_query now returns the new hash)
     Rotate,
+    /// the configuration file changes and is reloaded through the admin console: 0 = alice's password is replaced, 1 = trusty
+    /// loses auth_type trust and gets a password, 2 = bob is removed from the pool, 3 = nothing changes
+    Reload(u8),
 }
 
 #[derive(Clone, Debug, Serialize, Deserialize)]
@@ -92,7 +95,7 @@ impl Part for WirePart {
         true
     }
     fn rule(&self) -> String {
-        "sessions of 1..7 login attempts against the real binary: user ∈ {two cleartext-password users, one auth_query user whose hash the mock backend serves, one trust user, an unconfigured user, the admin user} × database ∈ {pool, unconfigured, admin} × response ∈ {correct, wrong password, correct for an earlier connection's salt, correct answer truncated to 0..35 bytes, another user's password, md5+garbage, cleartext, other message type, bogus length, trailing bytes, the rotated-away password, silence}, each followed by a pipelined tagged query; the backend password of the auth_query user may rotate between attempts, and in 30% of the cases its hash cannot be fetched while the pool is created (pgcat must fetch it during the first login); plain or TLS; admin md5 or trust. Oracle: AuthenticationOk iff the pair is configured and (trust or the response is md5(md5(pw+user)+salt of this connection) for the current password); no tag of an unauthenticated attempt is ever received by a backend; authenticated attempts get their query answered. Non-trivial = a well-formed but wrong response (replay, other user, truncation, old password)".into()
+        "sessions of 1..7 login attempts against the real binary: user ∈ {two cleartext-password users, one auth_query user whose hash the mock backend serves, one trust user, an unconfigured user, the admin user} × database ∈ {pool, unconfigured, admin} × response ∈ {correct, wrong password, correct for an earlier connection's salt, correct answer truncated to 0..35 bytes, another user's password, md5+garbage, cleartext, other message type, bogus length, trailing bytes, the rotated-away password, silence}, each followed by a pipelined tagged query; the backend password of the auth_query user may rotate between attempts, the configuration may be edited and reloaded between attempts (a cleartext user's password replaced, the trust user switched to a password, a user removed, or nothing changed), and in 30% of the cases its hash cannot be fetched while the pool is created (pgcat must fetch it during the first login); plain or TLS; admin md5 or trust. Oracle: AuthenticationOk iff the pair is configured and (trust or the response is md5(md5(pw+user)+salt of this connection) for the password currently configured); no tag of an unauthenticated attempt is ever received by a backend; authenticated attempts get their query answered. Non-trivial = a well-formed but wrong response (replay, other user, truncation, old password)".into()
     }
     fn cases(&self, tier: Tier) -> u64 {
         tier.pick(2_000, 30_000)
@@ -101,6 +104,7 @@ impl Part for WirePart {
         let step = prop_oneof![
             9 => (0u8..6, prop_oneof![6 => Just(0u8), 1 => Just(1u8), 2 => Just(2u8)], resp_strategy()).prop_map(|(user, database, resp)| Step::Login { user, database, resp }),
             1 => Just(Step::Rotate),
+            1 => (0u8..4).prop_map(Step::Reload),
         ];
         (prop::bool::weighted(0.25), prop::bool::weighted(0.2), prop::bool::weighted(0.3), prop::collection::vec(step, 1..8))
             .prop_map(|(tls, admin_trust, late_hash, steps)| Case { tls, admin_trust, late_hash, steps })
@@ -115,7 +119,16 @@ fn md5_hash_for(user: &str, pw: &str) -> String {
     format!("md5{}", proto::md5_hex(&[pw.as_bytes(), user.as_bytes()]))
 }
 
+/// current definition of the pool's users: (name, cleartext password if any, kind: 0 = password, 1 = auth_query, 2 = trust)
+fn initial_users() -> Vec<(String, Option<String>, u8)> {
+    USERS.iter().map(|(n, p, k)| (n.to_string(), if *k == 0 { Some(p.to_string()) } else { None }, *k)).collect()
+}
+
 fn config(mocks: &[crate::mock::MockServer], c: &Case) -> PgcatConfig {
+    config_with(mocks, c, &initial_users())
+}
+
+fn config_with(mocks: &[crate::mock::MockServer], c: &Case, current: &[(String, Option<String>, u8)]) -> PgcatConfig {
     let mut cfg = PgcatConfig::new();
     if c.tls {
         cfg.set_general("tls_certificate", "\"/repo/.circleci/server.cert\"");
@@ -126,11 +139,11 @@ fn config(mocks: &[crate::mock::MockServer], c: &Case) -> PgcatConfig {
     }
     let servers = vec![ServerDef { host: mocks[0].ip.clone(), port: mocks[0].port, role: "primary".into() }];
     let mut users = vec![];
-    for (i, (name, pw, kind)) in USERS.iter().enumerate() {
+    for (i, (name, pw, kind)) in current.iter().enumerate() {
         users.push(UserDef {
             key: i.to_string(),
             username: name.to_string(),
-            password: if *kind == 0 { Some(pw.to_string()) } else { None },
+            password: pw.clone(),
             pool_size: 2,
             extra: if *kind == 2 { vec![("auth_type".into(), "\"trust\"".into())] } else { vec![] },
         });
@@ -278,7 +291,9 @@ async fn run_case(c: &Case, ctx: &mut WorkerCtx) -> Outcome {
     }
     let mut passwords: HashMap<String, String> = USERS.iter().map(|(u, p, _)| (u.to_string(), p.to_string())).collect();
     passwords.insert(pgc::ADMIN_USER.into(), pgc::ADMIN_PASS.into());
-    let mut old_pw = String::from("never-valid");
+    let mut old_pws: HashMap<String, String> = HashMap::new();
+    let mut current = initial_users();
+    let mut reloads = 0;
     let mut last_salt: Option<Vec<u8>> = None;
     let mut rotations = 0;
     let mut unauth_tags = vec![];
@@ -289,11 +304,51 @@ async fn run_case(c: &Case, ctx: &mut WorkerCtx) -> Outcome {
         match st {
             Step::Rotate => {
                 rotations += 1;
-                old_pw = passwords["carol"].clone();
+                old_pws.insert("carol".into(), passwords["carol"].clone());
                 let new_pw = format!("carol_pw_v{}", rotations);
                 env.mocks[0].set_auth_hash("carol", &md5_hash_for("carol", &new_pw));
                 passwords.insert("carol".into(), new_pw);
                 o.label("password_rotated");
+            }
+            Step::Reload(kind) => {
+                reloads += 1;
+                match kind % 4 {
+                    0 => {
+                        if let Some(u) = current.iter_mut().find(|u| u.0 == "alice") {
+                            let new_pw = format!("alice_pw_r{}", reloads);
+                            old_pws.insert("alice".into(), passwords["alice"].clone());
+                            passwords.insert("alice".into(), new_pw.clone());
+                            u.1 = Some(new_pw);
+                        }
+                        o.label("reload:password_changed");
+                    }
+                    1 => {
+                        if let Some(u) = current.iter_mut().find(|u| u.0 == "trusty") {
+                            u.1 = Some("trusty_pw".into());
+                            u.2 = 0;
+                            passwords.insert("trusty".into(), "trusty_pw".into());
+                        }
+                        o.label("reload:trust_revoked");
+                    }
+                    2 => {
+                        current.retain(|u| u.0 != "bob");
+                        passwords.remove("bob");
+                        o.label("reload:user_removed");
+                    }
+                    _ => o.label("reload:unchanged"),
+                }
+                env.pg.write_config(&config_with(&env.mocks, c, &current).to_toml(env.pg.port));
+                let ok = match env.admin().await {
+                    Ok(mut a) => {
+                        let (m, e) = a.simple("RELOAD", wire::T_REPLY).await;
+                        matches!(e, ReadEnd::Ready(_)) && !m.iter().any(|x| x.code == b'E')
+                    }
+                    Err(_) => false,
+                };
+                if !ok {
+                    o.inconclusive = Some("RELOAD of a valid file failed".into());
+                    break;
+                }
             }
             Step::Login { user, database, resp } => {
                 o.sub_evaluations += 1;
@@ -303,9 +358,10 @@ async fn run_case(c: &Case, ctx: &mut WorkerCtx) -> Outcome {
                     _ => pgc::ADMIN_USER.to_string(),
                 };
                 let db = ["db", "nodb", "pgcat"][*database as usize % 3];
-                let configured_pool = db == "db" && *user <= 3;
+                let cur = current.iter().find(|u| u.0 == uname).cloned();
+                let configured_pool = db == "db" && cur.is_some();
                 let is_admin_db = db == "pgcat";
-                let trust = (configured_pool && USERS[*user as usize].2 == 2) || (is_admin_db && c.admin_trust);
+                let trust = (configured_pool && cur.as_ref().map(|u| u.2 == 2).unwrap_or(false)) || (is_admin_db && c.admin_trust);
                 // who may get in at all
                 let pair_ok = configured_pool || is_admin_db;
                 let creds_user_ok = if is_admin_db { *user == 5 || c.admin_trust } else { true };
@@ -318,7 +374,7 @@ async fn run_case(c: &Case, ctx: &mut WorkerCtx) -> Outcome {
                 let want_ok = pair_ok && (trust || (creds_user_ok && resp_correct && (is_admin_db || passwords.contains_key(&uname))));
                 // the admin database with md5 computes the hash with admin_username: a client that presents a
                 // different user name cannot produce it with the harness' helper, so only user 5 is expected in
-                let a = match attempt(&env, 100 + i as u32, c.tls, &uname, db, resp, &passwords, &old_pw, &last_salt).await {
+                let a = match attempt(&env, 100 + i as u32, c.tls, &uname, db, resp, &passwords, old_pws.get(&uname).map(|s| s.as_str()).unwrap_or("never-valid"), &last_salt).await {
                     Ok(a) => a,
                     Err(e) => {
                         o.inconclusive = Some(e);
@@ -328,7 +384,7 @@ async fn run_case(c: &Case, ctx: &mut WorkerCtx) -> Outcome {
                 if let Some(s) = &a.salt {
                     last_salt = Some(s.clone());
                 }
-                let class = format!("{}:{}:{}", if is_admin_db { "admin" } else if configured_pool { ["cleartext", "cleartext", "auth_query", "trust"][*user as usize] } else { "unconfigured" }, resp_name(resp), if rotations > 0 { "rotated" } else { "fresh" });
+                let class = format!("{}:{}:{}", if is_admin_db { "admin" } else if configured_pool { ["cleartext", "auth_query", "trust"][cur.as_ref().map(|u| u.2 as usize).unwrap_or(0) % 3] } else { "unconfigured" }, resp_name(resp), if reloads > 0 { "reloaded" } else if rotations > 0 { "rotated" } else { "fresh" });
                 if !matches!(resp, Resp::Correct | Resp::Nothing | Resp::WrongMessage(_) | Resp::BadLength(_)) {
                     o.nontrivial = true;
                 }
